@@ -44,6 +44,8 @@ impl CodeGenerator {
     ) -> Option<Item> {
         if max_points > 0 {
             let mut rng = rand::thread_rng();
+            #[cfg(feature = "verif")]
+            let mut rng = crate::push::verif::rng(rng);
             let actual_points = Uniform::from(1..max_points).sample(&mut rng);
             Some(CodeGenerator::random_code_with_size(
                 push_state,
@@ -61,6 +63,8 @@ impl CodeGenerator {
             None
         } else {
             let mut rng = rand::thread_rng();
+            #[cfg(feature = "verif")]
+            let mut rng = crate::push::verif::rng(rng);
             // default = false when less than half of the bits should be active
             // sparcity = portion of non-default values
             let default = sparsity > 0.5;
@@ -90,6 +94,8 @@ impl CodeGenerator {
         } else {
             let mut float_vector = Vec::with_capacity(size as usize);
             let mut r = rand::thread_rng();
+            #[cfg(feature = "verif")]
+            let mut r = crate::push::verif::rng(r);
             let n = Normal::new(mean, stddev).unwrap();
             for _i in 0..size {
                 float_vector.push(n.sample(&mut r));
@@ -106,6 +112,8 @@ impl CodeGenerator {
         } else {
             let mut int_vector = Vec::with_capacity(size as usize);
             let mut r = rand::thread_rng();
+            #[cfg(feature = "verif")]
+            let mut r = crate::push::verif::rng(r);
             for _i in 0..size {
                 int_vector.push(r.gen_range(min..max));
             }
@@ -116,6 +124,8 @@ impl CodeGenerator {
     /// Returns random float value within the bounds given by configuration
     pub fn random_float(push_state: &PushState) -> Option<f32> {
         let mut rng = rand::thread_rng();
+        #[cfg(feature = "verif")]
+        let mut rng = crate::push::verif::rng(rng);
         if push_state.configuration.min_random_float < push_state.configuration.max_random_float {
             Some(rng.gen_range(
                 push_state.configuration.min_random_float
@@ -129,6 +139,8 @@ impl CodeGenerator {
     /// Returns random integer value within the bounds given by configuration
     pub fn random_integer(push_state: &PushState) -> Option<i32> {
         let mut rng = rand::thread_rng();
+        #[cfg(feature = "verif")]
+        let mut rng = crate::push::verif::rng(rng);
         if push_state.configuration.min_random_integer < push_state.configuration.max_random_integer
         {
             Some(rng.gen_range(
@@ -155,6 +167,8 @@ impl CodeGenerator {
             CodeGenerator::new_random_name()
         } else {
             let mut rng = rand::thread_rng();
+            #[cfg(feature = "verif")]
+            let mut rng = crate::push::verif::rng(rng);
             let name_idx = rng.gen_range(0..name_size);
             let names: Vec<String> = push_state.name_bindings.keys().cloned().collect();
             names[name_idx].to_string()
@@ -170,7 +184,11 @@ impl CodeGenerator {
         let number_instructions = instructions.list.len();
         if points == 1 {
             let mut rng = rand::thread_rng();
+            #[cfg(feature = "verif")]
+            let mut rng = crate::push::verif::rng(rng);
             let item_type: ItemType = rand::random();
+            #[cfg(feature = "verif")]
+            let item_type: ItemType = if crate::push::verif::scripted() { rng.gen() } else { item_type };
             match item_type {
                 ItemType::Boolean => Item::bool(rng.gen::<bool>()),
                 ItemType::Float => Item::float(rng.gen::<f32>()),
@@ -246,6 +264,8 @@ impl CodeGenerator {
             return;
         }
         let mut rng = rand::thread_rng();
+        #[cfg(feature = "verif")]
+        let mut rng = crate::push::verif::rng(rng);
         let items_this_level = rng.gen_range(1..remaining_items) as usize;
         elements.push(items_this_level);
         CodeGenerator::decompose(elements, remaining_items - items_this_level);
